@@ -245,10 +245,10 @@ func newEngine(ld *Loaded, hp *ssa.Package, stubs map[string]*ssa.Function, ts T
 	e := &Engine{TB: tb, prog: ld.prog, base: map[int]*Obj{}, globals: map[*ssa.Global]int{}, strConst: map[string]StrV{},
 		feas: map[int]bool{}, sens: map[*ssa.Function]map[ssa.Value]bool{}, order: map[*ssa.Function][]int{},
 		comps: map[*ssa.Function][][2]int{}, initDone: map[*ssa.Package]bool{}, funcsRun: map[string]int{}, harnessPk: hp,
-		stubs: stubs, modelsUsed: map[string]int{}, scCache: map[*ssa.BasicBlock]bool{}}
+		stubs: stubs, modelsUsed: map[string]int{}, scCache: map[*ssa.BasicBlock]bool{}, varAlpha: map[int][]uint64{}}
 	e.unwindCap = ts.Unwind
 	if e.unwindCap == 0 {
-		e.unwindCap = 400
+		e.unwindCap = 100000
 	}
 	e.feasMs = 10000
 	e.initState = &State{G: tb.True, heap: e.base, stamp: -1}
@@ -413,6 +413,9 @@ func runInstance(ld *Loaded, h HarnessSpec, ts TierSpec, args []int, opt *Option
 					for i, v := range e.vars {
 						if v != nil {
 							q.Model[i] = m[v.name]
+							if al, ok := e.varAlpha[i]; ok && int(q.Model[i]) < len(al) {
+								q.Model[i] = al[q.Model[i]] // selector -> letter
+							}
 						}
 					}
 					if len(ufs) == 0 {
